@@ -317,7 +317,7 @@ func init() {
 		}),
 
 		// ---- sort (reflect-based swappers cannot be interpreted)
-		"sort.Slice":       sortSlice,
+		"sort.Slice":       sortSliceUnstable,
 		"sort.SliceStable": sortSlice,
 
 		// ---- errors
@@ -1035,6 +1035,36 @@ func sortSlice(fr *frame, args []value) value {
 			in.set(&s[j], b)
 			in.set(&s[j-1], a)
 		}
+	}
+	return nil
+}
+
+// sortSliceUnstable models sort.Slice, which does not promise stability: after
+// sorting, every run of mutually equal elements (neither less than the other)
+// is put into an arbitrary order, a nondeterministic choice of the path.
+func sortSliceUnstable(fr *frame, args []value) value {
+	in := fr.i
+	sortSlice(fr, args)
+	s := args[0].(iface).v.([]value)
+	less := args[1]
+	lt := func(i, j int) bool { return in.truth(in.call(fr, token.NoPos, less, []value{i, j})) }
+	for i := 0; i+1 < len(s); {
+		j := i
+		for j+1 < len(s) && !lt(j, j+1) && !lt(j+1, j) {
+			j++
+		}
+		if n := j - i + 1; n > 1 && n <= 4 {
+			// pick an arbitrary permutation of s[i..j] by successive choices
+			for k := i; k < j; k++ {
+				c := k + in.choose(j-k+1, "sorttie")
+				if c != k {
+					a, b := s[k], s[c]
+					in.set(&s[k], b)
+					in.set(&s[c], a)
+				}
+			}
+		}
+		i = j + 1
 	}
 	return nil
 }
